@@ -24,6 +24,60 @@ import re
 
 from harness.drivers import c08 as base
 
+
+# --------------------------------------------------------------------------- input realisation
+# (own copy: the C08 driver's realisation of inputs became richer - matrix construction forms -
+#  and C09 keeps the plain one: alphabet-size variants decide the code dtype, a third component
+#  "F" makes the score matrix Fortran-ordered)
+REPS = [("u8", "u8"), ("u16", "u8"), ("u8", "u16"), ("u16", "u16"), ("u32", "u8"), ("u8", "u32"),
+        ("u8p", "u8p"), ("u8", "u8", "F"), ("u16", "u8p", "F")]
+SIZES = {"u8": None, "u8p": 11, "u16": 300, "u32": 70000}
+FILL = 77           # score of symbol pairs that never occur: a wrong table lookup becomes visible
+_ALPH = {}
+
+
+def _alphabet(size):
+    import biotite.sequence as seq
+
+    if size not in _ALPH:
+        _ALPH[size] = seq.Alphabet(list(range(size)))
+    return _ALPH[size]
+
+
+def _embed(c, size, k):
+    """code of abstract symbol c in an alphabet of `size` symbols"""
+    if size == k:
+        return c
+    return size - 1 - c * ((size - 1) // k)
+
+
+def build_rep(inp, rep):
+    """abstract input -> (seq1, seq2, SubstitutionMatrix)"""
+    import numpy as np
+    import biotite.sequence as seq
+    import biotite.sequence.align as align
+
+    M = inp["M"]
+    k1, k2 = len(M), len(M[0])
+    z1 = SIZES[rep[0]] or k1
+    z2 = SIZES[rep[1]] or k2
+    a1, a2 = _alphabet(z1), _alphabet(z2)
+    mat = np.full((z1, z2), FILL, dtype=np.int64)
+    for a in range(k1):
+        for b in range(k2):
+            mat[_embed(a, z1, k1), _embed(b, z2, k2)] = M[a][b]
+    if len(rep) > 2 and rep[2] == "F":
+        mat = np.asfortranarray(mat)
+    sm = align.SubstitutionMatrix(a1, a2, mat)
+    if len(rep) > 2 and rep[2] == "F" and not sm.score_matrix().flags["F_CONTIGUOUS"]:
+        sm = align.SubstitutionMatrix(a2, a1, mat.T.copy()).transpose()
+    s1 = seq.GeneralSequence(a1)
+    s1.code = np.array([_embed(c, z1, k1) for c in inp["s1"]], dtype=np.int64)
+    s2 = seq.GeneralSequence(a2)
+    s2.code = np.array([_embed(c, z2, k2) for c in inp["s2"]], dtype=np.int64)
+    return s1, s2, sm
+
+
 PROPERTY = "C09"
 
 MANIFEST = {
@@ -44,10 +98,10 @@ def run_call(c):
     import biotite.sequence.align as align
 
     inp = {"s1": c["s1"], "s2": c["s2"], "M": c["M"]}
-    s1, s2, sm = base.build(inp, tuple(c.get("rep") or base.REPS[0]))
+    s1, s2, sm = build_rep(inp, tuple(c.get("rep") or REPS[0]))
     ev = {k: c[k] for k in ("op", "s1", "s2", "M", "gap", "band", "local", "seed", "X", "dir", "maxn", "mts")}
     ev.update(oc="ok", exc="", scores=[], count=0, traces=[], sonly=[], big=int(c.get("big", 0)),
-              rep=list(c.get("rep") or base.REPS[0]))
+              rep=list(c.get("rep") or REPS[0]))
     gap = base._gap_arg(c["gap"])
     op = c["op"]
     try:
@@ -164,7 +218,7 @@ def _rand_call(rng):
     M = _rand_matrix(rng, k1, k2)
     op = rng.choice(["banded", "banded", "ungapped", "gapped", "gapped"])
     c = {"op": op, "M": M, "gap": [-1], "band": [0, 0], "local": False, "seed": [0, 0], "X": 0,
-         "dir": "both", "maxn": 1, "mts": [], "big": 0, "rep": list(base.REPS[rng.randrange(len(base.REPS))])}
+         "dir": "both", "maxn": 1, "mts": [], "big": 0, "rep": list(REPS[rng.randrange(len(REPS))])}
     r = rng.random()
     if op == "banded":
         c["s1"], c["s2"] = _rand_seqs(rng, k1, k2, 1, 10)
@@ -449,7 +503,7 @@ def run(ctx):
     ctx.rng.shuffle(order)
     for pos, si in enumerate(order):
         s = sts[si]
-        rep = list(base.REPS[pos % len(base.REPS)] if pos % 3 else base.REPS[0])
+        rep = list(REPS[pos % len(REPS)] if pos % 3 else REPS[0])
         c0 = {k: s[k] for k in ("op", "s1", "s2", "M", "gap", "band", "local", "seed", "X", "dir")}
         c0.update(maxn=1, mts=[], big=0, rep=rep, model=s["model"])
         if s["op"] == "banded":
@@ -569,7 +623,7 @@ def replay(record):
     call = record.get("call")
     if not call:
         return {"error": "record has no call", "record": record}
-    c = dict(call, op=record["op"], rep=record.get("rep") or list(base.REPS[0]), big=record.get("big", 0))
+    c = dict(call, op=record["op"], rep=record.get("rep") or list(REPS[0]), big=record.get("big", 0))
     ev = run_call(c)
     d = T.scratch_dir("c09replay")
     tf = os.path.join(d, "t.json")
